@@ -557,4 +557,36 @@ theorem stop_and_continue_are_always_broadcast :
     Dispatcher.responseRow .jobContinue = ("JobControl/Continue", [("continue", true)]) := by
   refine ⟨by decide, by decide, by decide, by decide⟩
 
+/-- **the stopwatch counts running time only** (stopwatch.rs `StopwatchStart`, the clock behind every reported duration): for
+    every operation sequence without an illegal transition, `snapshot().active` grows by exactly the time that passes while
+    the watch is not paused -/
+theorem stopwatch_counts_running_time_only (ops : List WatchOp) (w w' : Watch) (h : w.run ops = some w') :
+    w'.active = w.active + runningTime w.paused ops := by
+  induction ops generalizing w with
+  | nil => simp [Watch.run] at h; subst h; simp [runningTime]
+  | cons o os ih =>
+    cases o with
+    | advance d =>
+      simp only [Watch.run, Watch.apply] at h
+      have := ih _ h
+      rw [this]
+      unfold Watch.tick
+      by_cases hp : w.paused = true
+      · simp [hp, runningTime]
+      · simp [hp, runningTime]; omega
+    | pause =>
+      simp only [Watch.run, Watch.apply] at h
+      by_cases hp : w.paused = true
+      · simp [hp] at h
+      · simp [hp] at h
+        have := ih _ h
+        simpa [runningTime] using this
+    | resume =>
+      simp only [Watch.run, Watch.apply] at h
+      by_cases hp : w.paused = true
+      · simp [hp] at h
+        have := ih _ h
+        simpa [runningTime] using this
+      · simp [hp] at h
+
 end NextestModel.C12
